@@ -59,6 +59,8 @@ def _violations_by_line(tr):
 
 
 def _case_class(c):
+    if "rounds" in c:    # small file handed out again and again to several instances
+        return "reuse fmt=%s entries=%d preload=%s instances=%d" % (c["fmt"], len(c["entries"]), c["preload"], c["n"])
     if "entries" in c:   # multi-entry file case
         redef = any(h["n"].lower() in {g["n"].lower() for e0 in c["entries"][:i] for g in e0["hl"]}
                     for i, e in enumerate(c["entries"]) for h in e["hl"])
@@ -144,16 +146,18 @@ def run(tier, v):
     d = vlib.scratch()
     cases = os.path.join(d, "cases.ndjson")
     pos = [("HttpWireMC", "HttpWire_exh%s.cfg" % sfx), ("HttpWireMC", "HttpWire_files%s.cfg" % sfx),
-           ("HttpConnMC", "HttpConn_exh%s.cfg" % sfx), ("HttpConnMC", "HttpConn_shared.cfg"), ("HttpConnMC", "HttpConn_shared1.cfg")]
+           ("HttpConnMC", "HttpConn_exh%s.cfg" % sfx), ("HttpConnMC", "HttpConn_shared.cfg"), ("HttpConnMC", "HttpConn_shared1.cfg"),
+           ("HttpConnMC", "HttpConn_expiry.cfg")]
     negs = [("HttpWireMC", "HttpWire_neg_config_wins.cfg"), ("HttpWireMC", "HttpWire_neg_host_target.cfg"),
             ("HttpWireMC", "HttpWire_neg_opt_always.cfg"), ("HttpWireMC", "HttpWire_neg_empty_undefined.cfg"),
             ("HttpWireMC", "HttpWire_neg_live_map.cfg"), ("HttpWireMC", "HttpWire_neg_connect_plain.cfg"),
             ("HttpWireMC", "HttpWire_neg_mw_twice.cfg"), ("HttpWireMC", "HttpWire_neg_side_changes.cfg"),
             ("HttpConnMC", "HttpConn_neg_noreuse.cfg"), ("HttpConnMC", "HttpConn_neg_idledrop.cfg"),
-            ("HttpConnMC", "HttpConn_neg_ownclient.cfg")]
+            ("HttpConnMC", "HttpConn_neg_ownclient.cfg"), ("HttpConnMC", "HttpConn_neg_noexpire.cfg"),
+            ("HttpWireMC", "HttpWire_neg_shared_cursor.cfg")]
     if not thorough:
         # quick: one negative control per mechanism; the thorough tier runs all of them
-        skip = ("host_target", "opt_always", "mw_twice", "side_changes", "shared1")
+        skip = ("host_target", "opt_always", "mw_twice", "side_changes", "shared1", "noreuse")
         negs = [(m, c) for m, c in negs if not any(k in c for k in skip)]
         pos = [(m, c) for m, c in pos if "shared1" not in c]
     vlib.spec_copy()
@@ -188,10 +192,22 @@ def run(tier, v):
         for (m, c), f in zip(negs, fneg):
             vlib.tlc_must_fail(f.result(), c)
         crows, runs, ctr = fconn.result()
-    want = sorted((c["id"], k) for c in gen for k in (range(1, len(c["c"]["entries"]) + 1) if "entries" in c["c"] else [0]))
-    if sorted((r["id"], r["k"]) for r in rows) != want:
+    # bookkeeping: one line per single-entry case / per entry of a file; re-used files give one line per request or failed shot
+    reuse_ids = {c["id"] for c in gen if "rounds" in c["c"]}
+    want = sorted((c["id"], k) for c in gen if c["id"] not in reuse_ids
+                  for k in (range(1, len(c["c"]["entries"]) + 1) if "entries" in c["c"] else [0]))
+    if sorted((r["id"], r["k"]) for r in rows if r["id"] not in reuse_ids) != want:
         raise vlib.MachineryError("driver answered %d lines for %d generated cases / file entries" % (len(rows), len(want)))
-    files = [c for c in gen if "entries" in c["c"]]
+    if {r["id"] for r in rows if r["id"] in reuse_ids} != reuse_ids:
+        raise vlib.MachineryError("driver did not play every re-use case")
+    for c in gen:
+        if c["id"] in reuse_ids:
+            got = sum(1 for r in rows if r["id"] == c["id"])
+            if got < c["c"]["n"] * c["c"]["rounds"]:      # fewer lines than shots: neither arrived nor reported as failed
+                v.violation("wire %s inv=ShotsAccounted" % _case_class(c["c"]),
+                            "re-use case %d: %d shots, but only %d requests arrived or were reported as failed samples" % (
+                                c["id"], c["c"]["n"] * c["c"]["rounds"], got))
+    files = [c for c in gen if "entries" in c["c"] and c["id"] not in reuse_ids]
     nontrivial = len({json.dumps(r["c"], sort_keys=True) for r in rows
                       if "entries" in r["c"] or r["c"]["ehdr"] or r["c"]["opts"] or r["c"]["host"]})
     single = [r for r in rows if "entries" not in r["c"]]
@@ -210,7 +226,9 @@ def run(tier, v):
         "middleware_cases": sum(1 for c in gen if "mw" in c["c"]), "side_channel_cases": sum(1 for c in gen if "side" in c["c"]),
         "conn_runs_connect_gun": sum(1 for r in runs if r.get("gun") == "connect"),
         "conn_runs_shared_client": sum(1 for r in runs if r.get("shared")),
-        "single_entry_cases": len(gen) - len(files), "multi_entry_files": len(files), "file_entries_checked": len(rows) - len(single),
+        "reuse_cases": len(reuse_ids), "reuse_requests_checked": sum(1 for r in rows if r["id"] in reuse_ids),
+        "conn_runs_idle_expiry": sum(1 for r in runs if r.get("idle_ms") and r.get("gap_ms", 0) > r["idle_ms"]),
+        "single_entry_cases": len(gen) - len(files) - len(reuse_ids), "multi_entry_files": len(files), "file_entries_checked": len(rows) - len(single),
         "conn_runs_with_client_options": sum(1 for r in runs if r.get("opts")),
         "conn_runs_with_idle_gap": sum(1 for r in runs if r.get("gap_ms")),
         "distinct_nontrivial": nontrivial,
